@@ -1,0 +1,135 @@
+//go:build verif
+
+package litefs
+
+import (
+	"fmt"
+	"sort"
+	"strings"
+	"sync/atomic"
+)
+
+// verifHook is the process-global callback invoked at instrumented sites.
+var verifHook atomic.Pointer[func(site string, obj any, a int64, b bool)]
+
+// VerifSetHook installs fn as the callback for instrumented sites. Pass nil to clear.
+func VerifSetHook(fn func(site string, obj any, a int64, b bool)) {
+	if fn == nil {
+		verifHook.Store(nil)
+		return
+	}
+	verifHook.Store(&fn)
+}
+
+func verifPoint(site string, obj any, a int64, b bool) {
+	if fn := verifHook.Load(); fn != nil {
+		(*fn)(site, obj, a, b)
+	}
+}
+
+// VerifSetID overrides the randomly generated node ID.
+func (s *Store) VerifSetID(id uint64) { s.id = id }
+
+// VerifMutex returns the mutex that the guard belongs to.
+func (g *RWMutexGuard) VerifMutex() *RWMutex { return g.rw }
+
+// VerifDump returns the number of shared holders and the exclusive holder.
+func (rw *RWMutex) VerifDump() (sharedN int, excl *RWMutexGuard) {
+	rw.mu.Lock()
+	defer rw.mu.Unlock()
+	return rw.sharedN, rw.excl
+}
+
+// VerifLockTypes lists the lock types of the twelve database locks.
+var VerifLockTypes = []LockType{
+	LockTypePending, LockTypeShared, LockTypeReserved,
+	LockTypeWrite, LockTypeCkpt, LockTypeRecover,
+	LockTypeRead0, LockTypeRead1, LockTypeRead2, LockTypeRead3, LockTypeRead4, LockTypeDMS,
+}
+
+// VerifMutex returns the database mutex for a lock type.
+func (db *DB) VerifMutex(lockType LockType) *RWMutex {
+	switch lockType {
+	case LockTypePending:
+		return &db.pendingLock
+	case LockTypeShared:
+		return &db.sharedLock
+	case LockTypeReserved:
+		return &db.reservedLock
+	case LockTypeWrite:
+		return &db.writeLock
+	case LockTypeCkpt:
+		return &db.ckptLock
+	case LockTypeRecover:
+		return &db.recoverLock
+	case LockTypeRead0:
+		return &db.read0Lock
+	case LockTypeRead1:
+		return &db.read1Lock
+	case LockTypeRead2:
+		return &db.read2Lock
+	case LockTypeRead3:
+		return &db.read3Lock
+	case LockTypeRead4:
+		return &db.read4Lock
+	case LockTypeDMS:
+		return &db.dmsLock
+	default:
+		panic("VerifMutex: invalid lock type")
+	}
+}
+
+// VerifHaltLockID returns the ID of the locally held halt lock, or zero.
+func (db *DB) VerifHaltLockID() int64 {
+	if curr := db.haltLockAndGuard.Load().(*haltLockAndGuard); curr != nil {
+		return curr.haltLock.ID
+	}
+	return 0
+}
+
+// VerifHaltGuardSet returns the guard set pinned by the local halt lock, if any.
+func (db *DB) VerifHaltGuardSet() *GuardSet {
+	if curr := db.haltLockAndGuard.Load().(*haltLockAndGuard); curr != nil {
+		return curr.guardSet
+	}
+	return nil
+}
+
+// VerifPageSize returns the page size the database has learnt, if any.
+func (db *DB) VerifPageSize() uint32 { return db.pageSize }
+
+// VerifDump returns a canonical rendering of private in-memory state.
+func (db *DB) VerifDump() string {
+	var sb strings.Builder
+	fmt.Fprintf(&sb, "pageSize=%d pageN=%d mode=%d pos=%s hwm=%d\n", db.pageSize, db.PageN(), db.Mode(), db.Pos(), db.HWM())
+
+	db.chksums.mu.Lock()
+	fmt.Fprintf(&sb, "pages=%x\nblocks=%x\n", db.chksums.pages, db.chksums.blocks)
+	db.chksums.mu.Unlock()
+
+	dirty := make([]int, 0, len(db.dirtyPageSet))
+	for pgno := range db.dirtyPageSet {
+		dirty = append(dirty, int(pgno))
+	}
+	sort.Ints(dirty)
+	fmt.Fprintf(&sb, "dirty=%v\n", dirty)
+
+	fmt.Fprintf(&sb, "wal.offset=%d salt=%08x,%08x chksum=%08x,%08x\n", db.wal.offset, db.wal.salt1, db.wal.salt2, db.wal.chksum1, db.wal.chksum2)
+	pgnos := make([]int, 0, len(db.wal.frameOffsets))
+	for pgno := range db.wal.frameOffsets {
+		pgnos = append(pgnos, int(pgno))
+	}
+	sort.Ints(pgnos)
+	for _, pgno := range pgnos {
+		fmt.Fprintf(&sb, "wal.frameOffsets[%d]=%d\n", pgno, db.wal.frameOffsets[uint32(pgno)])
+	}
+	pgnos = pgnos[:0]
+	for pgno := range db.wal.chksums {
+		pgnos = append(pgnos, int(pgno))
+	}
+	sort.Ints(pgnos)
+	for _, pgno := range pgnos {
+		fmt.Fprintf(&sb, "wal.chksums[%d]=%x\n", pgno, db.wal.chksums[uint32(pgno)])
+	}
+	return sb.String()
+}
